@@ -1,4 +1,5 @@
 import HexProofs.Numeric.Simple
+import HexProofs.Numeric.RoundedAnyCfg
 import HexProofs.Numeric.RangesMore
 import HexProofs.Numeric.AvgExtra
 import HexProofs.Numeric.Channel
@@ -1606,5 +1607,95 @@ theorem C10_RSI_chained_holds : C10_RSI_chained := by
   have e : out.getD i default = out[i] := by
     rw [List.getD_eq_getElem?_getD, List.getElem?_eq_getElem hi]; rfl
   exact (e ▸ hall i (hl ▸ hi)).free
+
+/-! ### whole runs: rounding, OBV step, Aroon / Donchian identities (HexProofs/Numeric/Rounded*.lean) -/
+
+/-- **every numeric reading is rounded to the indicator's `round_value`**: all 27 classes, every manager with a spec
+(also the Heikin-Ashi ones), every append schedule – whenever the history returns -/
+theorem every_stored_reading_rounded (M : MgrSpec K) (k : Kind K) (name : String) (round : Nat)
+    (hc : CoveredTreeX name k) (hk : IsKey name) :
+    Always M (mkTop k name round) (fun _ snap => ∀ c ∈ snap, RoundedAt name round c) :=
+  Hex.every_stored_reading_rounded (roundIdem_lawful K) M k name round hc hk
+
+/-- … in the generality of `C10_FULL`: EVERY kind, name, `round_value`, EVERY manager configuration (lifespan included),
+incoming candles that may carry foreign readings -/
+theorem rounded_every_cfg (cfg : MgrCfg) (k : Kind K) (name : String) (round : Nat) (hk : isData k = false)
+    (init : List (Candle K)) (chunks : List (List (Candle K)))
+    (hfree : ∀ c ∈ init ++ chunks.flatten, FreeOf name c) (snap : List (Candle K))
+    (hsnap : candlesOf (runIndicator (mkTop k name round) cfg init chunks) = .ok snap) :
+    AllStored name (RoundedVal round) snap ∧ (IsKey name → ∀ c ∈ snap, RoundedAt name round c) :=
+  Hex.rounded_every_cfg (roundIdem_lawful K) cfg k name round hk init chunks hfree snap hsnap
+
+/-- helper series are rounded with THEIR OWN `round_value` (4), every configuration -/
+theorem helpers_rounded_every_cfg (cfg : MgrCfg) (k : Kind K) (name : String) (round : Nat)
+    (n : Ind K) (hn : n ∈ (mkTop k name round).nodes) (hd : isData n.kind = false)
+    (init : List (Candle K)) (chunks : List (List (Candle K)))
+    (hfree : ∀ c ∈ init ++ chunks.flatten, FreeOf n.name c) (snap : List (Candle K))
+    (hsnap : candlesOf (runIndicator (mkTop k name round) cfg init chunks) = .ok snap) :
+    (n = mkTop k name round ∨ n.round = 4) ∧ AllStored n.name (RoundedVal n.round) snap ∧
+    (IsKey n.name → ∀ c ∈ snap, RoundedAt n.name n.round c) :=
+  Hex.helpers_rounded_every_cfg (roundIdem_lawful K) cfg k name round n hn hd init chunks hfree snap hsnap
+
+/-- `Managed.set_reading` data are NOT rounded (by design): RSI(3) stores `gain = 8/9` -/
+theorem data_not_rounded : ∃ (snap : List (Candle ℚ)) (y : ℚ),
+    candlesOf (runIndicator (mkTop (.rsi 3 "close" : Kind ℚ) "RSI_3" 4) {} rsiDemoRaw []) = .ok snap ∧
+    readingByCandle (snap.getD 4 default) "RSI_3_data.gain" = .flt y ∧ ¬ Rounded 4 y := Hex.data_not_rounded
+
+/-- what every OBV history stores: the series `obvStored` (rounded first volume, then `round(previous stored + step)`) -/
+theorem obv_live_stored (M : MgrSpec K) (nm : String) (n : Nat) (hk : IsKey nm) :
+    HoldsOn M (mkTop (.obv : Kind K) nm n) (fun spec j c => ObvIn n nm spec j c) :=
+  Numeric.obv_holds M nm n hk
+
+theorem obv_ha_stored (nm : String) (n : Nat) (hk : IsKey nm) :
+    HoldsOnHA (mkTop (.obv : Kind K) nm n) (fun spec j c => ObvIn n nm spec j c) := Numeric.obv_ha nm n hk
+
+/-- **the whole-run form of `obv_moves`**, every manager with a spec: `o j = round(o (j−1) + δ j)`,
+`|o j − o (j−1) − δ j| ≤ ε_n`, `δ j ∈ {0, ±volume j}` -/
+theorem obv_live_moves (M : MgrSpec K) (nm : String) (n : Nat) (hk : IsKey nm)
+    (init : List (Candle K)) (chunks : List (List (Candle K))) (hok : M.Ok (init ++ chunks.flatten)) :
+    ∃ (snap : List (Candle K)) (o : Nat → K),
+      candlesOf (runIndicator (mkTop (.obv : Kind K) nm n) M.cfg init chunks) = .ok snap ∧
+      snap.length = (M.spec (init ++ chunks.flatten)).length ∧
+      (∀ j, j < (M.spec (init ++ chunks.flatten)).length →
+        ∃ t : Num K, readingByCandle (snap.getD j default) nm = .num t ∧ t.toF = o j) ∧
+      o 0 = PyF.round n (fieldAt (·.v) (M.spec (init ++ chunks.flatten)) 0) ∧
+      ∀ j, 1 ≤ j →
+        let δ := obvDelta (fieldAt (·.c) (M.spec (init ++ chunks.flatten))) (fieldAt (·.v) (M.spec (init ++ chunks.flatten))) j
+        (δ = 0 ∨ δ = fieldAt (·.v) (M.spec (init ++ chunks.flatten)) j ∨
+          δ = -fieldAt (·.v) (M.spec (init ++ chunks.flatten)) j) ∧
+        o j = PyF.round n (o (j - 1) + δ) ∧ |o j - o (j - 1) - δ| ≤ eps K n ∧ (δ = 0 → o j = o (j - 1)) :=
+  Numeric.obv_live_moves M nm n hk init chunks hok
+
+/-- … exactly `0`, `+volume`, `−volume` when the volumes have at most `n` decimals (Python ints) -/
+theorem obv_live_moves_exact (M : MgrSpec K) (nm : String) (n : Nat) (hk : IsKey nm)
+    (init : List (Candle K)) (chunks : List (List (Candle K))) (hok : M.Ok (init ++ chunks.flatten))
+    (hgrid : ∀ c ∈ M.spec (init ++ chunks.flatten), OnGrid n c.v.toF) :
+    ∃ (snap : List (Candle K)) (o : Nat → K),
+      candlesOf (runIndicator (mkTop (.obv : Kind K) nm n) M.cfg init chunks) = .ok snap ∧
+      snap.length = (M.spec (init ++ chunks.flatten)).length ∧
+      (∀ j, j < (M.spec (init ++ chunks.flatten)).length →
+        ∃ t : Num K, readingByCandle (snap.getD j default) nm = .num t ∧ t.toF = o j) ∧
+      ∀ j, 1 ≤ j → j < (M.spec (init ++ chunks.flatten)).length →
+        o j - o (j - 1) = obvDelta (fieldAt (·.c) (M.spec (init ++ chunks.flatten)))
+          (fieldAt (·.v) (M.spec (init ++ chunks.flatten))) j ∧
+        (o j - o (j - 1) = 0 ∨ o j - o (j - 1) = fieldAt (·.v) (M.spec (init ++ chunks.flatten)) j ∨
+          o j - o (j - 1) = -fieldAt (·.v) (M.spec (init ++ chunks.flatten)) j) :=
+  Numeric.obv_live_moves_exact M nm n hk init chunks hok hgrid
+
+theorem aroon_live_osc (M : MgrSpec K) (p : Nat) (hp : 1 ≤ p) (nm : String) (n : Nat) (hk : IsKey nm) :
+    HoldsOn M (mkTop (.aroon p : Kind K) nm n) (fun spec j c => AroonOscIn p n nm spec j c) :=
+  Numeric.aroon_osc_holds M p hp nm n hk
+
+theorem aroon_ha_osc (p : Nat) (hp : 1 ≤ p) (nm : String) (n : Nat) (hk : IsKey nm) :
+    HoldsOnHA (mkTop (.aroon p : Kind K) nm n) (fun spec j c => AroonOscIn p n nm spec j c) :=
+  Numeric.aroon_osc_ha p hp nm n hk
+
+theorem donchian_live_middle (M : MgrSpec K) (p : Nat) (hp : 2 ≤ p) (nm : String) (n : Nat) (hn : DcNames nm) :
+    HoldsOn M (mkTop (.donchian p : Kind K) nm n) (fun spec j c => DcMidIn p n nm spec j c) :=
+  Numeric.donchian_mid_holds M p hp nm n hn
+
+theorem donchian_ha_middle (p : Nat) (hp : 2 ≤ p) (nm : String) (n : Nat) (hn : DcNames nm) :
+    HoldsOnHA (mkTop (.donchian p : Kind K) nm n) (fun spec j c => DcMidIn p n nm spec j c) :=
+  Numeric.donchian_mid_ha p hp nm n hn
 
 end Hex.C10
